@@ -61,12 +61,17 @@ instance (reg : Reg W) : Decidable (RegOk reg) := by unfold RegOk; infer_instanc
 def SharedHead (a b : Genome W) : Prop := a.genes.head?.map (·.inn) = b.genes.head?.map (·.inn)
 instance (a b : Genome W) : Decidable (SharedHead a b) := by unfold SharedHead; infer_instance
 
-/-- `WF` plus the non-zero trait ids: the well-formedness the closure theorems preserve -/
+/-- node kinds are the four `NodeNeuronType` codes (hidden 0, input 1, output 2, bias 3) -/
+def KindsValid (g : Genome W) : Prop := ∀ n ∈ g.nodes, n.kind ≤ 3
+instance (g : Genome W) : Decidable (KindsValid g) := by unfold KindsValid; infer_instance
+
+/-- `WF` plus the non-zero trait ids and valid kind codes: the well-formedness the closure theorems preserve -/
 structure WFT (g : Genome W) : Prop where
   wf : WF g
   tnz : TraitIdsNonzero g
+  kinds : KindsValid g
 instance (g : Genome W) : Decidable (WFT g) :=
-  if h : WF g ∧ TraitIdsNonzero g then isTrue ⟨h.1, h.2⟩ else isFalse (fun w => h ⟨w.1, w.2⟩)
+  if h : WF g ∧ TraitIdsNonzero g ∧ KindsValid g then isTrue ⟨h.1, h.2.1, h.2.2⟩ else isFalse (fun w => h ⟨w.1, w.2, w.3⟩)
 
 /-- the registry side of the invariant of one genome -/
 structure RegInv (reg : Reg W) (g : Genome W) : Prop where
